@@ -360,8 +360,10 @@ pub fn liquidate(
     require_position_not_zero(position.size.value)?;
 
     // first see if this is a partial liquidation, else get rekt
+    // (a ratio of 100% takes the whole position: that is a full liquidation, which also settles the funding owed)
     let msg = if margin_ratio.value > config.liquidation_fee
         && !config.partial_liquidation_ratio.is_zero()
+        && config.partial_liquidation_ratio < config.decimals
         && can_settle_partial_liquidation(deps.as_ref(), &config, &position)?
     {
         partial_liquidation(deps, env, vamm.clone(), trader.clone(), quote_asset_limit)?
